@@ -8,6 +8,7 @@ def replay(args, outdir):
     H = importlib.import_module('harness.C02')   # only for the concrete mates / names (no patching of strategy code)
     a, lemma = args['cex'], args['lemma']
     parser = StubBarcodeParser()
+    parser.correct = S.corrected
     with contextlib.redirect_stdout(io.StringIO()):
         loader = DemultiplexingStrategyLoader(parser, indexParser=parser, indexFileAlias='idx')
     strats = {s.shortName: s for s in loader.demultiplexingStrategies}
